@@ -20,45 +20,40 @@ structure Copy where
   deriving DecidableEq, Repr, Inhabited
 
 abbrev Key := Bytes
-abbrev Frag := List (Key × Copy)
 
-def Frag.get (f : Frag) (k : Key) : Option Copy := (f.find? (fun p => p.1 == k)).map (·.2)
-def Frag.del (f : Frag) (k : Key) : Frag := f.filter (fun p => p.1 != k)
-def Frag.set (f : Frag) (k : Key) (c : Copy) : Frag := (k, c) :: f.del k
-
-/-- one member's fragments of every DMap: name ↦ fragment -/
-abbrev Frags := List (Bytes × Frag)
-def Frags.frag (fs : Frags) (dm : Bytes) : Frag := ((fs.find? (fun p => p.1 == dm)).map (·.2)).getD []
-def Frags.setFrag (fs : Frags) (dm : Bytes) (f : Frag) : Frags := (dm, f) :: fs.filter (fun p => p.1 != dm)
-def Frags.drop (fs : Frags) (dm : Bytes) : Frags := fs.filter (fun p => p.1 != dm)
+/-- one member's fragments: DMap name ↦ key ↦ copy.  (A fragment is a map by C11; functions make the
+    frame properties — an operation on one key of one DMap touches nothing else — immediate.) -/
+abbrev Frags := Bytes → Key → Option Copy
 
 structure Node where
-  prim : Frags := []
-  bak : Frags := []
-  deriving Repr, Inhabited
+  prim : Frags := fun _ _ => none
+  bak : Frags := fun _ _ => none
 
-abbrev Cluster := List Node
+instance : Inhabited Node := ⟨{}⟩
 
-def Cluster.node (c : Cluster) (i : Nat) : Node := c.getD i {}
-def Cluster.setNode (c : Cluster) (i : Nat) (n : Node) : Cluster := c.set i n
+/-- member index ↦ member state -/
+abbrev Cluster := Nat → Node
+
+def Cluster.empty : Cluster := fun _ => {}
 
 inductive Kind | prim | bak
   deriving DecidableEq, Repr
 
 def Cluster.copy (c : Cluster) (i : Nat) (kind : Kind) (dm : Bytes) (k : Key) : Option Copy :=
   match kind with
-  | .prim => ((c.node i).prim.frag dm).get k
-  | .bak => ((c.node i).bak.frag dm).get k
+  | .prim => (c i).prim dm k
+  | .bak => (c i).bak dm k
+
+def updFrags (fs : Frags) (dm : Bytes) (k : Key) (v : Option Copy) : Frags :=
+  fun d x => if d = dm ∧ x = k then v else fs d x
 
 def Cluster.setCopy (c : Cluster) (i : Nat) (kind : Kind) (dm : Bytes) (k : Key) (v : Option Copy) : Cluster :=
-  let n := c.node i
-  let upd (fs : Frags) : Frags :=
-    match v with
-    | some x => fs.setFrag dm ((fs.frag dm).set k x)
-    | none => fs.setFrag dm ((fs.frag dm).del k)
-  match kind with
-  | .prim => c.setNode i { n with prim := upd n.prim }
-  | .bak => c.setNode i { n with bak := upd n.bak }
+  fun j =>
+    if j = i then
+      match kind with
+      | .prim => { c i with prim := updFrags (c i).prim dm k v }
+      | .bak => { c i with bak := updFrags (c i).bak dm k v }
+    else c j
 
 /-- the owners of the key's partition as the executing member sees them: primary owners (previous
     owners first, the current owner LAST) and backup owners; member indexes -/
